@@ -289,7 +289,7 @@ def run(ctx: Check):
         "allocator becomes full and alloc executes together with free or free_idx in some cycle"
     )
     ctx.proof_stage()
-    procs = ctx.pick(1, None)
+    procs = ctx.pick(1, 4)  # tiny cases: a large fork pool costs more than it saves
     valid, malformed = gen_cases(ctx)
     valid = _corpus() + valid
     lockstep(ctx, "po-allocator", "C26", valid, impl, monitor, more_cases, nontrivial, procs=procs)
@@ -297,7 +297,7 @@ def run(ctx: Check):
     ctx.count("configurations", len({c.desc["n"] for c in valid}))
     if ctx.thorough:
         cases = exhaustive_cases(ctx)
-        lockstep(ctx, "po-allocator-exhaustive", "C26", cases, impl, monitor, more_cases, lambda c, o: True, procs=procs)
+        lockstep(ctx, "po-allocator-exhaustive", "C26", cases, impl, monitor, more_cases, lambda c, o: True, procs=1)
         ctx.note("thorough: all histories over the full input alphabet up to length 4 (entries 1) / 3 (entries 2,3,4)")
     ctx.note("free+free_idx in the same cycle is never generated: both transactions call the exclusive method "
              "free_idx, no priority is declared, the winner (currently free) is an artefact of scheduling order")
